@@ -932,13 +932,31 @@ static int fnc_split (hawk_rtx_t* rtx, const hawk_fnc_info_t* fi, int use_array)
 		fs_free = fs.ptr;
 	}
 
-	t1 = use_array? hawk_rtx_makearrval(rtx, 16): hawk_rtx_makemapval(rtx);
-	if (HAWK_UNLIKELY(!t1)) goto oops;
+	t1 = HAWK_NULL;
+	if (!use_array)
+	{
+		/* if the variable already holds a map, clear and refill that map
+		 * in place. a map is passed to a function by reference and the
+		 * caller must see the result of split() on a map parameter.
+		 *   function f(a) { split("x y", a); } BEGIN { m[0] = 1; f(m); print m[1]; } */
+		hawk_val_t* cur = hawk_rtx_getrefval(rtx, (hawk_val_ref_t*)hawk_rtx_getarg(rtx, 1));
+		if (HAWK_RTX_GETVALTYPE(rtx, cur) == HAWK_VAL_MAP)
+		{
+			hawk_map_clear (((hawk_val_map_t*)cur)->map);
+			t1 = cur;
+		}
+	}
 
-	hawk_rtx_refupval (rtx, t1);
-	x = hawk_rtx_setrefval(rtx, (hawk_val_ref_t*)hawk_rtx_getarg(rtx, 1), t1);
-	hawk_rtx_refdownval (rtx, t1);
-	if (HAWK_UNLIKELY(x <= -1)) goto oops;
+	if (!t1)
+	{
+		t1 = use_array? hawk_rtx_makearrval(rtx, 16): hawk_rtx_makemapval(rtx);
+		if (HAWK_UNLIKELY(!t1)) goto oops;
+
+		hawk_rtx_refupval (rtx, t1);
+		x = hawk_rtx_setrefval(rtx, (hawk_val_ref_t*)hawk_rtx_getarg(rtx, 1), t1);
+		hawk_rtx_refdownval (rtx, t1);
+		if (HAWK_UNLIKELY(x <= -1)) goto oops;
+	}
 
 	/* fill the map with actual values */
 	p = str.ptr; org_len = str.len; nflds = 0;
